@@ -31,8 +31,6 @@ def make_any(frontend, framing, fc, L, reads):
             assume(B[0] == 0x3A)
             assume(B[3] == hx[0])
             assume(B[4] == hx[1])
-            from harness.c07 import _lenient_lrc
-            known("KF-ascii-lenient-lrc-field", _lenient_lrc(B))
         elif framing == "binary":
             assume(B[0] == 0x7B)
             assume(B[2] == fc)
@@ -213,6 +211,6 @@ def obligations(tier):
                            fr, G, "any" if kind == "raw" else "a mix of delimiter characters")))
     for fe, fr, fc, L, reads in plan:
         out.append(Obl("any.%s.%s.fc%d.len%d.reads%d" % (fe, fr, fc, L, reads), make_any(fe, fr, fc, L, reads), timeout=T,
-                       contracts=contracts[fr], lemmas=lem[fr], findings=("KF-ascii-lenient-lrc-field",) if fr == "ascii" and reads == 1 else (),
+                       contracts=contracts[fr], lemmas=lem[fr],
                        bounds="%s front-end, %s framing: any %d-byte input with function-code byte 0x%02X in %d read(s); 4 symbolic registers; then a probe on a fresh connection" % (fe, fr, L, fc, reads)))
     return out
